@@ -371,6 +371,34 @@ def check_in(tag, stmt, seed, acc, variant=None):
         return
     acc.count('in_null_cells', sum(1 for r in exp for x in r if x is None))
     acc.add('outcomes', repr(rows)[:60])
+    # ONE cursor executing the same statement again after the data changed (rows of t reversed and cut, u emptied): the
+    # sub-query is evaluated on the data as it is at each execution
+    try:
+        cur = conn.cursor()
+        first = cur.execute(stmt).fetchall()
+        tabs2 = {n: (cols, list(rows_)) for n, (cols, rows_) in tabs.items()}
+        tabs2['t'] = (tabs['t'][0], list(reversed(tabs['t'][1]))[:4])
+        tabs2['u'] = (tabs['u'][0], [])
+        for n in ('t', 'u'):
+            conn.tables[n].rows = tabs2[n][1]
+        conn.tables['postings'].rows = tabs2['t'][1]
+        second = cur.execute(stmt).fetchall()
+        _, exp2, _ = refselect.execute(stmt, [], [], None, tables=reftabs(tabs2))
+    except RefError:
+        exp2 = second = None
+    except Exception as e:
+        acc.violation(f'crash:{crash_fingerprint(e)}', f'executing {show(stmt)} twice on one cursor raised {type(e).__name__}: {e}', case)
+        return
+    finally:
+        for n in ('t', 'u'):
+            conn.tables[n].rows = tabs[n][1]
+        conn.tables['postings'].rows = tabs['t'][1]
+    if exp2 is not None:
+        acc.count('executions', 2)
+        if [tuple(map(typed, x)) for x in first] != [tuple(map(typed, x)) for x in exp] or \
+           [tuple(map(typed, x)) for x in second] != [tuple(map(typed, x)) for x in exp2]:
+            acc.violation('same-cursor-re-execution-after-data-change', f'{show(stmt)} executed twice on one cursor, the data changed in between: second result {second!r}, reference on the new data {exp2!r}', case)
+            return
     # one compiled statement executed twice: a sub-query's rows are produced anew by every execution
     try:
         from beanquery import query_execute
@@ -446,6 +474,11 @@ def ledger_statements():
         #  "the subquery" then means the text run alone or in that context is not specified -> not generated here)
         'own-close': select([(acc, None)], from_=A.From(None, None, datetime.date(2019, 2, 1), None)),
         'from-subquery': select([(col('a'), None)], from_=select([(acc, 'a')], from_=A.From(A.Equal(col('month'), C(1)), None, None, None))),
+        # three SELECT levels: the middle one has its own FROM clause AND nests another IN sub-query
+        'nested-in': select([(acc, None)], from_=A.From(A.Equal(col('year'), C(2019)), None, None, None),
+                            where=A.In(acc, select([(acc, None)], from_=A.From(A.GreaterEq(date_, C(datetime.date(2019, 1, 1))), None, None, None), where=A.Greater(num, C(0))))),
+        'nested-in-own-close': select([(acc, None)], from_=A.From(None, None, datetime.date(2019, 3, 1), None),
+                                      where=A.In(acc, select([(acc, None)], from_=A.From(A.Equal(col('year'), C(2019)), None, None, None)))),
     }
     outers = {
         'plain': None,
